@@ -21,7 +21,8 @@ LettersGen == {El("H", 1, 1), El("H", 2, 1), El("H", 3, 1), El("P", 2, 1), El("P
 \* maximum chunk size (70 items)
 LettersWide == {El("H", lv, 1) : lv \in 1..6} \cup {El("P", c, 1) : c \in 1..12}
                \cup {El("L", 1, 1), El("L", 3, 3), El("L", 5, 5), El("L", 70, 70), El("L", 106, 1), El("T", 2, 2), El("T", 6, 6),
-                     El("I", 1, 1), El("I", 0, 0), NP}
+                     El("I", 1, 1), El("I", 0, 0), NP,
+                     El("H", 1, 0), El("H", 3, 0), El("P", 2, 0), El("L", 0, 0), El("T", 0, 0)}
 
 \* lists and what can introduce them: one-word and normal paragraphs (rendered as
 \* list introductions when a list follows), a small list and one that exceeds a
@@ -46,6 +47,20 @@ LettersBound == {El("H", 1, 1), El("P", 3, 1), El("L", 3, 3), El("L", 106, 1), N
 \* bulleted or numbered lines, the page break.  The harness renders them with
 \* positioned text and reads them back through tabula.Open(pdf).
 LettersPdf == {El("H", 1, 1), El("H", 2, 1), El("P", 23, 1), El("P", 26, 1), El("L", 3, 3), NP}
+
+\* hollow elements of every kind (n = 0): heading / paragraph of white space, list
+\* without (or with empty) items, table without rows (or with empty cells), image
+\* without description; with the page break also the empty page and the page that
+\* holds only hollow elements - at the start, in the middle and at the end of
+\* documents and sections
+LettersHollow == {El("H", 1, 1), El("H", 2, 1), El("P", 2, 1), El("L", 3, 3),
+                  El("H", 2, 0), El("P", 2, 0), El("L", 0, 0), El("T", 0, 0), El("I", 0, 0), NP}
+\* white space pending in front of elements that force a flush (a list, a paragraph
+\* of exactly / just above the maximum size) on the same and on later pages
+LettersHollowFlush == {El("P", 2, 0), El("H", 1, 0), El("L", 3, 3), El("P", 7, 1), El("P", 8, 1), NP}
+\* model-checking alphabet for the element walk with hollow elements
+LettersHollowMC == {El("H", 1, 1), El("H", 2, 0), El("P", 2, 1), El("L", 0, 0), El("T", 0, 0), El("L", 2, 2), NP}
+HollowDropOn == TRUE
 
 \* a document the layout-based rag.Chunker can be given without loss: only
 \* headings, paragraphs and lists, and on every page headings first, then
